@@ -1,9 +1,18 @@
 #!/bin/sh
-# Builds the framework offline from files on disk: the native replay binary (and, later, the Kani harness crate / caches).
+# Builds the framework offline from files on disk: native replay binary, nightly build cache for the MIR dump,
+# and the Kani target-dir slots (dependency builds).  Everything lands in /verif/.cache (git-ignored).
 set -e
 cd "$(dirname "$0")"
 export CARGO_NET_OFFLINE=true
 mkdir -p .cache/tmp evidence
 [ -f replay/Cargo.lock ] || cp /repo/Cargo.lock replay/Cargo.lock
-(cd replay && CARGO_TARGET_DIR=../.cache/target-replay cargo build --offline)
+(cd replay && CARGO_TARGET_DIR=../.cache/target-replay cargo build --offline) 
+python3-vt - <<'PY'
+import sys
+sys.path.insert(0, 'lib')
+import mir
+txt = mir.dump_mir()          # warms .cache/target-mir (nightly build of the dependencies)
+print('MIR dump ok: %d lines' % txt.count('\n'))
+PY
+python3-vt lib/kani.py --warm
 echo "setup done"
